@@ -145,6 +145,7 @@ def run(tier, seed):
     wiring(chk)
     # failed obligations of the abstract get_short_name contract have abstract counter-models (name codes); the
     # concrete failing input comes from the bounded native search below
+    chk.native_witness = nat['bad']
     if nat['bad']:
         for v in chk.violations:
             if not v['confirmed']:
